@@ -2,7 +2,18 @@
 package c01
 
 import (
+	"context"
+	"encoding/json"
+	"os"
+	"path/filepath"
+	"strings"
 	"testing"
+
+	"github.com/aws/aws-sdk-go-v2/service/s3"
+	"github.com/versity/versitygw/auth"
+	"github.com/versity/versitygw/backend/meta"
+	"github.com/versity/versitygw/backend/posix"
+	"github.com/versity/versitygw/s3response"
 
 	"replay/gwtest"
 )
@@ -17,5 +28,49 @@ func TestHeadOfDirectoryObjectAgreesWithGet(t *testing.T) {
 	if get.Status != 200 || head.Status != 200 || head.Header.Get("Content-Length") != get.Header.Get("Content-Length") || len(get.Body) != 0 {
 		t.Errorf("GET: %d, Content-Length %s, %d bytes; HEAD: %d, Content-Length %s", get.Status, get.Header.Get("Content-Length"), len(get.Body),
 			head.Status, head.Header.Get("Content-Length"))
+	}
+}
+
+// With sidecar metadata the attributes of an object are not stored with the file: an overwrite kept the user metadata,
+// content headers and tags of the object it replaced.
+func TestOverwriteStartsWithoutTheOldMetadataSidecar(t *testing.T) {
+	top := t.TempDir()
+	root, side := filepath.Join(top, "root"), filepath.Join(top, "sidecar")
+	os.MkdirAll(root, 0o755)
+	os.MkdirAll(side, 0o755)
+	sc, err := meta.NewSideCar(side)
+	if err != nil {
+		t.Fatal(err)
+	}
+	be, err := posix.New(root, sc, posix.PosixOpts{SideCarDir: side, NewDirPerm: 0o755})
+	if err != nil {
+		t.Fatal(err)
+	}
+	ctx := context.Background()
+	bkt, key := "bkt", "obj"
+	acl, _ := json.Marshal(auth.ACL{Owner: "o"})
+	if err := be.CreateBucket(ctx, &s3.CreateBucketInput{Bucket: &bkt}, acl); err != nil {
+		t.Fatal(err)
+	}
+	put := func(body string, md map[string]string, enc *string, tagging *string) {
+		n := int64(len(body))
+		_, err := be.PutObject(ctx, s3response.PutObjectInput{Bucket: &bkt, Key: &key, Body: strings.NewReader(body), ContentLength: &n,
+			Metadata: md, ContentEncoding: enc, Tagging: tagging})
+		if err != nil {
+			t.Fatalf("put: %v", err)
+		}
+	}
+	gz, tg := "gzip", "a=b"
+	put("first", map[string]string{"old": "1"}, &gz, &tg)
+	put("second", map[string]string{"new": "2"}, nil, nil)
+	h, err := be.HeadObject(ctx, &s3.HeadObjectInput{Bucket: &bkt, Key: &key})
+	if err != nil {
+		t.Fatal(err)
+	}
+	if len(h.Metadata) != 1 || h.Metadata["new"] != "2" || (h.ContentEncoding != nil && *h.ContentEncoding != "") {
+		t.Errorf("after the overwrite: metadata %v, content encoding %v; want only new=2 and no content encoding", h.Metadata, h.ContentEncoding)
+	}
+	if tags, err := be.GetObjectTagging(ctx, bkt, key); err == nil && len(tags) > 0 {
+		t.Errorf("after the overwrite the object has the tags of the one it replaced: %v", tags)
 	}
 }
